@@ -132,6 +132,14 @@ func runC10(c *Ctx) {
 				skip = true
 			}
 		}
+		// a recorder: the function that maintains the ID index itself (writes elements[id] together with an
+		// append) reads an index it recorded under this element type; by what the function does, not by its name
+		if fnm := FuncName(s.Fn); s.Kind == "index" && strings.Contains(s.Operand, ".elements[") && (strings.HasPrefix(fnm, "consensus.") || strings.HasPrefix(fnm, "(consensus.")) {
+			if isIndexRecorder(s.Fn) {
+				c.Info("sink-discharged", k, where, "reviewed exception: index obtained from ms.elements inside the function that records it together with the append (see comment on reviewedSinkPrefixes)")
+				skip = true
+			}
+		}
 		for pre, why := range reviewedSinkPrefixes {
 			if strings.HasPrefix(k, pre) {
 				c.Info("sink-discharged", k, where, "reviewed exception: "+why)
@@ -205,9 +213,9 @@ func precheckCovered(c *Ctx, ge *GuardEngine, entry string) map[string]bool {
 	if !ok {
 		return out
 	}
-	// the pre-check function: a direct callee of the entry that contains a closure accumulating with AddWithOverflow
+	// the pre-check function: a callee of the entry that accumulates with AddWithOverflow: a closure or a module function/method taking one Currency
 	isAccumulator := func(fn *ssa.Function) bool {
-		if fn == nil || fn.Parent() == nil {
+		if fn == nil || !c.P.InModule(fn) {
 			return false
 		}
 		for _, b := range fn.Blocks {
@@ -226,7 +234,7 @@ func precheckCovered(c *Ctx, ge *GuardEngine, entry string) map[string]bool {
 		// only closures of the function called first by the entry for this purpose (named *Overflow by convention is not relied on):
 		// the accumulating closure takes exactly one Currency and returns nothing
 		if cf.Callee.Signature.Params().Len() == 1 && cf.Callee.Signature.Results().Len() == 0 && typeName(cf.Callee.Signature.Params().At(0).Type()) == "types.Currency" {
-			out[cf.Args[0]] = true
+			out[cf.Args[len(cf.Args)-1]] = true // the accumulator may be a closure or a method of a sum type (receiver first)
 		}
 	}
 	return out
@@ -356,8 +364,33 @@ var reviewedSinkOperands = []struct {
 }
 
 var reviewedSinkPrefixes = map[string]string{
-	"(consensus.MidState).record":      "index obtained from ms.elements for an ID recorded under this element type (see comment on reviewedSinkPrefixes)",
 	"(consensus.MidState).createAttestationElement:index": "index of the element appended on the line above",
 
 	"(consensus.State).medianTimestamp:index:": "ts has numTimestamps() >= 1 elements; len(ts)/2 and len(ts)/2-1 (taken only for even, hence >= 2, lengths) are in range",
+}
+
+// isIndexRecorder: fn stores into a map field named "elements" and appends to a slice: the record-style
+// helper that owns the invariant "elements[id] indexes the slice the element was appended to".
+func isIndexRecorder(fn *ssa.Function) bool {
+	mapWrite, appends := false, false
+	for _, b := range fn.Blocks {
+		for _, in := range b.Instrs {
+			switch x := in.(type) {
+			case *ssa.MapUpdate:
+				v := x.Map
+				if u, ok := v.(*ssa.UnOp); ok {
+					if fa, ok := u.X.(*ssa.FieldAddr); ok {
+						if st, ok := fa.X.Type().Underlying().(*types.Pointer).Elem().Underlying().(*types.Struct); ok && st.Field(fa.Field).Name() == "elements" {
+							mapWrite = true
+						}
+					}
+				}
+			case *ssa.Call:
+				if bi, ok := x.Call.Value.(*ssa.Builtin); ok && bi.Name() == "append" {
+					appends = true
+				}
+			}
+		}
+	}
+	return mapWrite && appends
 }
